@@ -32,6 +32,9 @@ import (
 type c02Case struct {
 	Job    jobSpec   `json:"job"`
 	Groups []grpSpec `json:"groups"`
+	// ViaCoord: the discovered targets reach the shard through a real coordinator cycle and the sidecar's HTTP API
+	// (Shard.UpdateTarget -> Service -> TargetsManager -> Injector) instead of being handed to the injector
+	ViaCoord bool `json:"viaCoord,omitempty"`
 }
 
 type seen struct {
@@ -98,7 +101,7 @@ func publicLabels(t *pscrape.Target) map[string]string {
 }
 
 func recC02() *vkit.Recorder {
-	r := vkit.Rec("C02", "exploration", "rapid-generated scrape jobs (scheme, metrics path, params, 0-5 relabel rules from replace/keep/drop/labelmap/labeldrop/labelkeep/hashmod over discovered, meta and reserved labels) x target groups (addresses with/without port, IPv6, invalid; group vs target labels; hostile label values; duplicates within and across groups); differential oracle: vendored Prometheus scrape.TargetsFromGroup on the original job (+ scrape-pool de-duplication) versus the real pipeline TargetsDiscovery -> JSON -> Injector -> config.Load of the generated file -> TargetsFromGroup -> request through the real Proxy with the outgoing URL observed at the HTTP client; compared as multisets of (public labels, scheme, host, path, query values); non-trivial = non-empty reference set and at least one of: relabel rule changed a label, dropped target, duplicate, param label, digit-leading label name, https; distinct = digest of the case")
+	r := vkit.Rec("C02", "exploration", "rapid-generated scrape jobs (scheme, metrics path, params, 0-5 relabel rules from replace/keep/drop/labelmap/labeldrop/labelkeep/hashmod over discovered, meta and reserved labels) x target groups (addresses with/without port, IPv6, invalid; group vs target labels; hostile label values; duplicates within and across groups); differential oracle: vendored Prometheus scrape.TargetsFromGroup on the original job (+ scrape-pool de-duplication) versus the real pipeline TargetsDiscovery -> (JSON -> Injector | in half of the cases a real coordinator cycle -> Shard.UpdateTarget -> sidecar HTTP API -> TargetsManager -> Injector) -> config.Load of the generated file -> TargetsFromGroup -> request through the real Proxy with the outgoing URL observed at the HTTP client; compared as multisets of (public labels, scheme, host, path, query values); non-trivial = non-empty reference set and at least one of: relabel rule changed a label, dropped target, duplicate, param label, digit-leading label name, https; distinct = digest of the case")
 	r.Assume("discovered label NAMES are valid Prometheus names (every Prometheus SD mechanism validates them); invalid final names arise only through labelmap (digit-leading); relabel rules do not touch __scrape_interval__/__scrape_timeout__; user params do not use the routing names _jobName, _hash, _scheme; multiplicities are compared: the reference keeps one target per distinct (all labels incl. internal ones, URL), as the scrape pool does")
 	return r
 }
@@ -163,31 +166,41 @@ func runC02(rec *vkit.Recorder, c *c02Case) []vkit.Violation {
 		add("C02/harness", "%v", err)
 		return vs
 	}
-	assign := map[string][]*target.Target{}
-	for _, sd := range r.d.ActiveTargetsByHash() {
-		b, err := json.Marshal(sd.ShardTarget)
-		if err != nil {
-			add("C02/ship-json", "marshal: %v", err)
-			continue
-		}
-		var tt target.Target
-		if err := json.Unmarshal(b, &tt); err != nil {
-			add("C02/ship-json", "unmarshal: %v", err)
-			continue
-		}
-		assign[sd.Job] = append(assign[sd.Job], &tt)
-	}
 	dir, _ := ioutil.TempDir("", "c02-")
 	defer os.RemoveAll(dir)
 	out := filepath.Join(dir, "prometheus_injected.yaml")
-	inj := sidecar.NewInjector(out, sidecar.InjectConfigOptions{ProxyURL: "http://127.0.0.1:8008"}, prometheus.NewRegistry(), quiet)
-	if err := inj.ApplyConfig(info); err != nil {
-		add("C02/inject-fails", "ApplyConfig: %v", err)
-		return vs
-	}
-	if err := inj.UpdateTargets(assign); err != nil {
-		add("C02/inject-fails", "UpdateTargets: %v", err)
-		return vs
+	assign := map[string][]*target.Target{}
+	var inj *sidecar.Injector
+	if c.ViaCoord {
+		p, err := shipThroughCoordinator(dir, info, r.d.ActiveTargetsByHash, 2)
+		if err != nil {
+			add("C02/ship-through-coordinator-fails", "%v", err)
+			return vs
+		}
+		out = p
+	} else {
+		for _, sd := range r.d.ActiveTargetsByHash() {
+			b, err := json.Marshal(sd.ShardTarget)
+			if err != nil {
+				add("C02/ship-json", "marshal: %v", err)
+				continue
+			}
+			var tt target.Target
+			if err := json.Unmarshal(b, &tt); err != nil {
+				add("C02/ship-json", "unmarshal: %v", err)
+				continue
+			}
+			assign[sd.Job] = append(assign[sd.Job], &tt)
+		}
+		inj = sidecar.NewInjector(out, sidecar.InjectConfigOptions{ProxyURL: "http://127.0.0.1:8008"}, prometheus.NewRegistry(), quiet)
+		if err := inj.ApplyConfig(info); err != nil {
+			add("C02/inject-fails", "ApplyConfig: %v", err)
+			return vs
+		}
+		if err := inj.UpdateTargets(assign); err != nil {
+			add("C02/inject-fails", "UpdateTargets: %v", err)
+			return vs
+		}
 	}
 	data, _ := ioutil.ReadFile(out)
 	gen, err := config.Load(string(data), false, log.NewNopLogger())
@@ -264,7 +277,7 @@ func runC02(rec *vkit.Recorder, c *c02Case) []vkit.Violation {
 
 	// ---- next round: discovery finds nothing for the job any more (the assignment sent to the shard
 	// then has no entry for the job); a single Prometheus scrapes nothing, so must the shard
-	if len(assign) > 0 {
+	if len(assign) > 0 && inj != nil {
 		if err := inj.UpdateTargets(map[string][]*target.Target{}); err != nil {
 			add("C02/inject-fails", "UpdateTargets(empty): %v", err)
 		} else if data, err := ioutil.ReadFile(out); err == nil {
@@ -324,6 +337,9 @@ func runC02(rec *vkit.Recorder, c *c02Case) []vkit.Violation {
 	}
 	if refFail > 0 {
 		cls = append(cls, "reference-rejected-a-target")
+	}
+	if c.ViaCoord {
+		cls = append(cls, "shipped-through-coordinator-and-sidecar-api")
 	}
 	if emptied != "" {
 		cls = append(cls, "excluded-known/reserved-label-emptied")
@@ -489,6 +505,7 @@ func TestC02(t *testing.T) {
 	rapid.Check(t, func(t *rapid.T) {
 		c := &c02Case{Job: genJob(t, rapid.SampledFrom([]string{"node", "job with space", "k8s/pods"}).Draw(t, "jobName"))}
 		c.Groups = genGroups(t, "grp", 3, 4, true)
+		c.ViaCoord = rapid.Bool().Draw(t, "viaCoord")
 		// digit-leading final label names: a labelmap over pod labels plus a pod label that starts with a digit
 		if rapid.IntRange(0, 3).Draw(t, "digitLabel") == 0 {
 			c.Job.Rules = append(c.Job.Rules, relRule{Action: "labelmap", Regex: "__meta_kubernetes_pod_label_(.+)"})
